@@ -124,6 +124,8 @@ func runC11(c *Ctx) {
 	// positive control: the table matches a known call
 	c.check(nondetSources["time.Now"] && nondetSources["os.Getenv"], "C11.3", "table:positive-control", "-", "the nondeterminism table is armed", "time.Now and os.Getenv are members")
 
+	ruleLoadedPackageReadOnly(c, "C11.8")
+
 	// ---- C11.4 deterministic field order
 	if fn := genFn(c, "C11.4", "extractExportedFields"); fn != nil {
 		ok := false
